@@ -107,6 +107,24 @@ def check(tier):
     if tier == "quick" and len(sprogs) > 5000:
         sprogs = rnd.sample(sprogs, 5000)
     res_s = l1check.run(rep, "C02-split", sprogs, dbset, {"rows", "ExecError", "Panic", "rejected-wellformed"})
+    # (f) grouping across dialects (spec/SqlShape.tla): the SQL expression of every (parent, child, side) tree, as the
+    # dialect's parser reads it back, must be the tree's shape - no engine needed, all 12 dialects
+    import sqlshape
+    shp = sqlshape.run(d, tier)
+    for x in shp["rejects"]:
+        rep.violation({"property": "C02", "kind": "sqlshape-grouping", "dialect": x["dialect"], "prql": x["prql"], "sql": x["sql"], "tree": x["tree"],
+                       "read_back_by_the_dialects_parser": x["parsed"], "specified_shape": x["specified"], "trace_file": shp["trace"]},
+                      {"what": "sqlshape-grouping", "dialect": x["dialect"], "src": x["prql"], "sql": x["sql"], "tags": x["tags"]})
+    # binding demonstration: the operands of one recorded expression swapped, one template lost
+    evs_ = read_ndjson(shp["trace"]); done_ = 0
+    for e_ in evs_:
+        if e_["ev"] == "Expr" and e_["outcome"] == "sql" and e_["ast"]["k"] == "bin" and len(e_["ast"]["a"]) == 2 and e_["ast"]["a"][0] != e_["ast"]["a"][1] and e_["id"] not in {x["id"] for x in shp["rejects"]}:
+            e_["ast"]["a"] = e_["ast"]["a"][::-1]; e_["id"] = "self-swapped"; done_ += 1
+            break
+    write_ndjson(os.path.join(d, "shape.bad.ndjson"), evs_)
+    ob_, _ = tlc("SqlShape", "SqlShape.cfg", env={"TRACE": os.path.join(d, "shape.bad.ndjson")}, workers=1, deque=True, xmx="8g")
+    if done_ != 1 or not any(r_[1] == "self-swapped" for r_ in tuples(ob_, "REJECT")):
+        raise ToolError("C02 SqlShape selftest: swapped operands not rejected")
     # (c) case / in-range / nested sub-expressions beyond the bound (rendered fully parenthesised)
     g = gen.G(seed(), safe=False, max_expr=3)
     fr = [("a", ""), ("b", ""), ("k", "")]
@@ -148,6 +166,9 @@ def check(tier):
     st = l1.selftest(dbset.replace("dbs_expr", "dbs_quick"))
     cov = {"states": info["distinct"] + tstates, "transitions": info["generated"] + tstates,
            "traces_validated_against_impl": nparse + res["accepted"] + res["rejected"] + res2["accepted"] + res2["rejected"] + res_s["accepted"] + res_s["rejected"],
+           "grouping_across_dialects": {"trees": shp["trees"], "dialects": 12, "templates_read_from_std_sql_prql": shp["templates"], "expressions_judged": shp["judged"],
+                                        "not_judged": shp["skipped"], "rejections": len(shp["rejects"]), "selftest": "swapped operands rejected",
+                                        "explanation": "spec/SqlShape.tla: Shape(op(l, r)) = Template(op)[l := Shape(l), r := Shape(r)] over the trees sqlparser's parser for the dialect reads back (parentheses dropped; sums, products, AND / OR chains compared up to re-grouping); every (parent, child, side) adjacency of 15 binary and 2 unary operators, literals incl. negative ones, null tests, depth-3 samples"},
            "split_over_derived_column": {"programs": len(sprogs), "accepted": res_s["accepted"], "rejected": res_s["rejected"], "not_judged": res_s["skipped"]},
            "samples": [trees[0], trees[len(trees) // 2], trees[-1], {"prql": res2["side"].get("r0", {}).get("src", "")[-200:], "sql": res2["side"].get("r0", {}).get("sql")}],
            "exhaustive": True,
